@@ -1,5 +1,286 @@
-"""stub"""
+"""C11 — class, dictionary and parser forms convert losslessly (DESIGN.md §4 C11)."""
+from __future__ import annotations
+
+import ast
+
+from ..core import guards
+from ..core import pyfacts as pf
+from ..core.match import call_arg, phi_alts, txt
 from ..core.source import AnchorMissing
-PROP="C11"
+from .common import DECAY, builder_sites, ckey, enclosing, fn, returns, single_def, stmt_of, where
+
+PROP = "C11"
+FILES = [DECAY]
+EXPLANATION = (
+    "C11.1 writer/reader agreement of DecayMode: to_dict writes bf, fs and every metadata key; from_dict forwards a deep "
+    "copy of the WHOLE input as keywords; __init__ takes fs as the daughters and stores every other keyword; C11.2 "
+    "DecayChain.to_dict replaces a decaying daughter at every position (enumerate index, no break, guard = membership in "
+    "the decay map only); C11.3 the dictionary reader must accept what that writer emits (the same mother key once per "
+    "position); C11.4 one canonical order and multiplicity-aware length/iteration of final states; C11.5 from_pdgids maps "
+    "every id and forwards bf and metadata; C11.6 the DaughtersDict constructor normalises str / mapping / iterable input; "
+    "C11.7 the reader replaces each nested dictionary by its key at the same position and recurses into that element.")
+NOT_DECIDED = ["equality of the rebuilt object with the original (needs execution)", "parser-form round trip 'up to order'"]
+
+
 def run(ctx, ss):
-    raise AnchorMissing("rules not built yet")
+    for r, f in (("C11.1", c11_1), ("C11.2", c11_2), ("C11.3", c11_3), ("C11.4", c11_4), ("C11.5", c11_5), ("C11.6", c11_6), ("C11.7", c11_7)):
+        ctx.guard(r, f, ss)
+
+
+def c11_1(ctx, ss):
+    # writer
+    ff, flow = fn(ss, DECAY, "DecayMode.to_dict")
+    rets = returns(ff)
+    if len(rets) != 1 or not isinstance(rets[0].value, ast.Name):
+        raise AnchorMissing("DecayMode.to_dict: return is not a local dict")
+    nm = rets[0].value.id
+    d = single_def(flow, rets[0].value)
+    k = ckey(ff, None, "writer")
+    base = {}
+    if d is not None and isinstance(d.value, ast.Dict):
+        base = {kk.value: txt(v) for kk, v in zip(d.value.keys, d.value.values) if isinstance(kk, ast.Constant)}
+    ok_base = base.get("bf") == "self.bf" and base.get("fs") in ("self.daughters.to_list()", "sorted(self.daughters.elements())")
+    (ctx.holds if ok_base else ctx.violation)("C11.1", k + " :: bf-fs", where(ff, ff.node),
+                                              "to_dict writes bf = self.bf and fs = self.daughters.to_list()" if ok_base else f"to_dict starts from {base}")
+    upd = [(st, args) for st, m, args in builder_sites(ff, flow, nm) if m == "update"]
+    ok_u = any(txt(a[0]) == "self.metadata" and not [c for c in guards.path_conditions(ff.node, st) if c[0] == "if"] for st, a in upd if a)
+    (ctx.holds if ok_u else ctx.violation)("C11.1", k + " :: metadata", where(ff, ff.node),
+                                           "to_dict adds every metadata key (d.update(self.metadata))" if ok_u else "to_dict does not write all metadata keys: user metadata is lost in the dictionary form")
+    dels = [n for n in pf.walk_no_nested(ff.node) if isinstance(n, ast.Delete) or (isinstance(n, ast.Call) and isinstance(n.func, ast.Attribute) and n.func.attr in ("pop", "popitem", "clear"))]
+    if dels:
+        ctx.violation("C11.1", k + " :: drops", where(ff, dels[0]), "to_dict removes keys from the dictionary it returns")
+    # reader
+    ff, flow = fn(ss, DECAY, "DecayMode.from_dict")
+    rets = returns(ff)
+    k = ckey(ff, None, "reader")
+    ok = False
+    why = "no single return"
+    rv = rets[0].value if len(rets) == 1 else None
+    if isinstance(rv, ast.Name):
+        d_ = single_def(flow, rv)
+        rv = d_.value if d_ is not None and d_.kind == "assign" and d_.path == () else rv
+    if isinstance(rv, ast.Call) and txt(rv.func) in ("cls", "DecayMode"):
+        c = rv
+        star = [kw for kw in c.keywords if kw.arg is None]
+        if len(star) == 1 and not c.args and len(c.keywords) == 1:
+            src = txt(flow.expand(star[0].value))
+            if src in ("deepcopy(decay_mode_dict)", "copy.deepcopy(decay_mode_dict)", "dict(decay_mode_dict)", "decay_mode_dict"):
+                ok = True
+                # nothing is removed from the copy before the call
+                nm = star[0].value.id if isinstance(star[0].value, ast.Name) else None
+                if nm and any(m in ("pop", "popitem", "clear") for st, m, a in builder_sites(ff, flow, nm)) or \
+                        any(isinstance(n, ast.Delete) for n in pf.walk_no_nested(ff.node)):
+                    ok, why = False, "keys are removed from the input before it is forwarded"
+            else:
+                why = f"forwards `{src[:80]}`"
+        else:
+            why = f"constructs the mode with `{txt(c)[:80]}`: not every key of the input is forwarded"
+    (ctx.holds if ok else ctx.violation)("C11.1", k, where(ff, ff.node), "from_dict forwards (a copy of) the whole input dictionary as keywords" if ok
+                                          else f"from_dict: {why} — metadata keys of the dictionary form are dropped")
+    # constructor
+    ff, flow = fn(ss, DECAY, "DecayMode.__init__")
+    k = ckey(ff, None, "ctor")
+    st_bf = [s for s in pf.iter_stmts(ff.node.body) if isinstance(s, ast.Assign) and txt(s.targets[0]) == "self.bf"]
+    ok = len(st_bf) == 1 and txt(st_bf[0].value) == "bf"
+    (ctx.holds if ok else ctx.violation)("C11.1", k + " :: bf", where(ff, ff.node), "self.bf = bf" if ok else "the branching fraction is not stored unchanged")
+    st_d = [s for s in pf.iter_stmts(ff.node.body) if isinstance(s, ast.Assign) and txt(s.targets[0]) == "self.daughters"]
+    okd = False
+    if len(st_d) == 1:
+        v = flow.expand(st_d[0].value)
+        if isinstance(v, ast.Call) and txt(v.func) == "DaughtersDict" and len(v.args) == 1:
+            alts_ = sorted(txt(a) for a in phi_alts(v.args[0]))
+            okd = alts_ in (["daughters", "info.pop('fs')"],)
+            # the pop branch only when no daughters were given
+            pops = [d for d in flow.defs if d.name == "daughters" and d.kind == "assign"]
+            for d in pops:
+                conds = [(txt(e), pol) for kind, e, pol in guards.path_conditions(ff.node, d.stmt) if kind == "if"]
+                if conds != [("daughters is None and 'fs' in info", True)]:
+                    okd = False
+    (ctx.holds if okd else ctx.violation)("C11.1", k + " :: fs", where(ff, ff.node),
+                                          "daughters = DaughtersDict(daughters, or info.pop('fs') when no daughters are given)" if okd
+                                          else "the 'fs' entry of the dictionary form does not become the daughters")
+    upd = [c for c in pf.calls_in(ff.node) if txt(c.func) == "self.metadata.update"]
+    oku = bool(upd) and any((any(kw.arg is None and txt(kw.value) == "info" for kw in c.keywords) or (c.args and txt(c.args[0]) == "info"))
+                            and not [x for x in guards.path_conditions(ff.node, stmt_of(ff, c)) if x[0] == "if"] for c in upd)
+    (ctx.holds if oku else ctx.violation)("C11.1", k + " :: metadata", where(ff, ff.node),
+                                          "every extra keyword is stored in metadata" if oku else "extra keywords (user metadata) are not all stored")
+    # metadata default keys
+    st_m = [s for s in pf.iter_stmts(ff.node.body) if isinstance(s, (ast.Assign, ast.AnnAssign)) and txt(s.targets[0] if isinstance(s, ast.Assign) else s.target) == "self.metadata"]
+    okm = len(st_m) == 1 and isinstance(st_m[0].value, ast.Dict) and sorted(kk.value for kk in st_m[0].value.keys) == ["model", "model_params"]
+    cfg = flow.cfg
+    if okm and upd and not cfg.dominates(cfg.node_of(st_m[0]), cfg.node_of(stmt_of(ff, upd[0]))):
+        okm = False
+    (ctx.holds if okm else ctx.violation)("C11.1", k + " :: defaults", where(ff, ff.node),
+                                          "metadata starts with the two default keys, then takes the user's" if okm else "metadata defaults are missing or overwrite the user's values")
+
+
+def c11_2(ctx, ss):
+    ff, flow = fn(ss, DECAY, "DecayChain.to_dict.recursively_replace")
+    stores = [s for s in pf.iter_stmts(ff.node.body) if isinstance(s, ast.Assign) and isinstance(s.targets[0], ast.Subscript)]
+    k = ckey(ff, None, "per-position")
+    if len(stores) != 1:
+        raise AnchorMissing("recursively_replace: expected one positional store")
+    st = stores[0]
+    lps = enclosing(ff, st, (ast.For,))
+    if not lps:
+        raise AnchorMissing("positional store outside a loop")
+    lp = lps[0]
+    t = st.targets[0]
+    it = lp.iter
+    ok_enum = isinstance(it, ast.Call) and txt(it.func) == "enumerate" and len(it.args) == 1 and txt(it.args[0]) == txt(t.value) \
+        and isinstance(lp.target, ast.Tuple) and len(lp.target.elts) == 2
+    if not ok_enum:
+        ctx.violation("C11.2", k, where(ff, st), f"the replacement does not index the list it enumerates (`{txt(it)[:60]}` vs `{txt(t.value)}`)")
+        return
+    idx, el = (e.id for e in lp.target.elts)
+    ok_idx = txt(t.slice) == idx
+    v = st.value
+    ok_val = isinstance(v, ast.Call) and txt(v.func) == "recursively_replace" and len(v.args) == 1 and txt(v.args[0]) == el
+    conds = [(txt(e), pol) for kind, e, pol in guards.path_conditions(lp, st) if kind == "if"]
+    ok_guard = conds == [(f"{el} in self.decays", True)]
+    exits = [x for x in ast.walk(lp) if isinstance(x, (ast.Break, ast.Return)) or (isinstance(x, ast.Continue))]
+    if ok_idx and ok_val and ok_guard and not exits:
+        ctx.holds("C11.2", k, where(ff, st), "every position whose daughter decays is replaced by that daughter's own sub-chain (no break)", 4)
+    else:
+        why = []
+        if not ok_idx:
+            why.append(f"index `{txt(t.slice)}` is not the enumerate index")
+        if not ok_val:
+            why.append(f"value `{txt(v)[:60]}`")
+        if not ok_guard:
+            why.append(f"guard {conds}")
+        if exits:
+            why.append("the loop ends early (break / continue / return): only the first of several identical decaying daughters is expanded")
+        ctx.violation("C11.2", k, where(ff, st), "; ".join(why))
+    # the list is the mode's own fs and the mode is appended once, result keyed by mother
+    lst = flow.expand(t.value)
+    ok_src = txt(lst) == "self.decays[mother].to_dict()['fs']"
+    rets = returns(ff)
+    ok_ret = len(rets) == 1 and isinstance(rets[0].value, ast.Dict) and len(rets[0].value.keys) == 1 and txt(rets[0].value.keys[0]) == "mother"
+    (ctx.holds if ok_src and ok_ret else ctx.violation)("C11.2", ckey(ff, None, "frame"), where(ff, ff.node),
+                                                        "works on the fs list of self.decays[mother].to_dict(), returned as {mother: [mode]}" if ok_src and ok_ret
+                                                        else f"frame: list `{txt(lst)[:60]}`, return `{txt(rets[0].value)[:60] if rets else None}`")
+    top, tflow = fn(ss, DECAY, "DecayChain.to_dict")
+    r = returns(top)
+    okt = len(r) == 1 and txt(r[0].value) == "recursively_replace(self.mother)"
+    (ctx.holds if okt else ctx.violation)("C11.2", ckey(top, None, "entry"), where(top, top.node),
+                                          "to_dict() = recursively_replace(self.mother)" if okt else "to_dict does not start from the chain's mother")
+
+
+def c11_3(ctx, ss):
+    ff, flow = fn(ss, DECAY, "_build_decay_modes")
+    raises = [r for r in pf.walk_no_nested(ff.node) if isinstance(r, ast.Raise)]
+    key = f"{DECAY}:_build_decay_modes :: rejects-repeated-mother"
+    bad = None
+    for r in raises:
+        conds = [(txt(flow.expand(e)), pol) for kind, e, pol in guards.path_conditions(ff.node, r) if kind == "if"]
+        if len(conds) == 1 and conds[0][1] and conds[0][0] in ("next(iter(dc_dict.keys())) in decay_modes", "next(iter(dc_dict)) in decay_modes"):
+            bad = r
+    if bad is not None:
+        ctx.violation("C11.3", key, where(ff, bad),
+                      "the dictionary reader raises whenever a mother key was already seen, but DecayChain.to_dict emits the same key once per position "
+                      "of a repeated decaying daughter (D0 -> pi0 pi0, pi0 -> gamma gamma): such a chain cannot be rebuilt from its own dictionary", 2)
+    else:
+        ctx.holds("C11.3", key, where(ff, ff.node), "a repeated mother key is not rejected unconditionally", len(raises) + 1)
+
+
+def c11_4(ctx, ss):
+    from .c13 import c13_1
+    from .c05 import _as
+    _as(ctx, ss, c13_1, "C11.4")
+    for q, want, msg in (("DaughtersDict.__len__", "sum(self.values())", "length counts multiplicities"),
+                         ("DaughtersDict.__iter__", "self.elements()", "iteration yields each daughter as often as it occurs")):
+        ff, flow = fn(ss, DECAY, q)
+        r = returns(ff)
+        ok = len(r) == 1 and txt(r[0].value) == want
+        (ctx.holds if ok else ctx.violation)("C11.4", ckey(ff, None, "shape"), where(ff, ff.node), f"{q} = {want}: {msg}" if ok
+                                              else f"{q} returns `{txt(r[0].value)[:60] if r else None}`, expected {want}")
+    ff, flow = fn(ss, DECAY, "DaughtersDict.__add__")
+    r = returns(ff)
+    ok = len(r) == 1 and flow.text(r[0].value) in ("self.__class__(super().__add__(other))", "DaughtersDict(super().__add__(other))")
+    (ctx.holds if ok else ctx.violation)("C11.4", ckey(ff, None, "shape"), where(ff, ff.node), "__add__ = class(Counter.__add__)" if ok else "__add__ is not the Counter sum re-wrapped")
+
+
+def c11_5(ctx, ss):
+    ff, flow = fn(ss, DECAY, "DecayMode.from_pdgids")
+    rets = returns(ff)
+    k = ckey(ff, None, "pdgids")
+    full = [r for r in rets if isinstance(r.value, ast.Call) and "daughters=None" not in txt(r.value).replace(" ", "")]
+    empty = [r for r in rets if r not in full]
+    okf = False
+    for r in full:
+        c = r.value
+        dd = call_arg(c, 1, "daughters")
+        bf = call_arg(c, 0, "bf")
+        star = [kw for kw in c.keywords if kw.arg is None and txt(kw.value) == "info"]
+        e = flow.expand(dd) if dd is not None else None
+        if e is not None and isinstance(e, ast.ListComp) and len(e.generators) == 1 and not e.generators[0].ifs and txt(e.generators[0].iter) == "daughters" \
+                and txt(e.elt) == "EvtGenName2PDGIDBiMap[PDGID(__elem__(daughters))]" and bf is not None and txt(bf) == "bf" and star:
+            okf = True
+    (ctx.holds if okf else ctx.violation)("C11.5", k + " :: map", where(ff, ff.node),
+                                          "every PDG ID is mapped through the EvtGen bi-map, bf and metadata forwarded" if okf
+                                          else "from_pdgids does not map every id (in order) or drops bf / metadata")
+    oke = all(isinstance(r.value, ast.Call) and call_arg(r.value, 0, "bf") is not None and txt(call_arg(r.value, 0, "bf")) == "bf"
+              and any(kw.arg is None and txt(kw.value) == "info" for kw in r.value.keywords) for r in empty) and bool(empty)
+    (ctx.holds if oke else ctx.violation)("C11.5", k + " :: empty", where(ff, ff.node),
+                                          "without ids an empty mode with bf and metadata is built" if oke else "the no-daughters branch drops bf or metadata")
+
+
+def c11_6(ctx, ss):
+    ff, flow = fn(ss, DECAY, "DaughtersDict.__init__")
+    sup = [c for c in pf.calls_in(ff.node) if txt(c.func) == "super().__init__"]
+    if len(sup) != 1:
+        raise AnchorMissing("DaughtersDict.__init__: expected one super().__init__ call")
+    c = sup[0]
+    k = ckey(ff, None, "normalise")
+    a = flow.expand(c.args[0]) if c.args else None
+    alts_ = sorted(txt(x) for x in phi_alts(a)) if a is not None else []
+    want = sorted(["iterable", "iterable.split()", "{__elem__(iterable.items())[0]: __elem__(iterable.items())[1] for k, v in iterable.items() if __elem__(iterable.items())[1] > 0}"])
+    okk = any(kw.arg is None and txt(kw.value) == "kwds" for kw in c.keywords)
+    (ctx.holds if alts_ == want and okk else ctx.violation)("C11.6", k, where(ff, c),
+                                                            "str → split(), mapping → positive counts, otherwise unchanged; keyword counts forwarded" if alts_ == want and okk
+                                                            else f"constructor passes {alts_} (keywords forwarded: {okk}) to Counter")
+    for d in [d for d in flow.defs if d.name == "iterable" and d.kind == "assign"]:
+        conds = [(txt(e), pol) for kind, e, pol in guards.path_conditions(ff.node, d.stmt) if kind == "if"]
+        v = txt(d.value)
+        if v == "iterable.split()":
+            ok = sorted(conds) == sorted([("isinstance(iterable, dict)", False), ("iterable and isinstance(iterable, str)", True)])
+            (ctx.holds if ok else ctx.violation)("C11.6", k + " :: str", where(ff, d.stmt), "a str argument is split on blanks" if ok else f"split applies under {conds}")
+        elif v.startswith("{"):
+            ok = conds == [("isinstance(iterable, dict)", True)]
+            (ctx.holds if ok else ctx.violation)("C11.6", k + " :: dict", where(ff, d.stmt), "a mapping keeps its positive counts" if ok else f"the count filter applies under {conds}")
+
+
+def c11_7(ctx, ss):
+    ff, flow = fn(ss, DECAY, "_build_decay_modes")
+    stores = [s for s in pf.iter_stmts(ff.node.body) if isinstance(s, ast.Assign) and isinstance(s.targets[0], ast.Subscript)
+              and txt(s.targets[0].value) != "decay_modes"]
+    k = ckey(ff, None, "reader-positions")
+    if len(stores) != 1:
+        raise AnchorMissing("_build_decay_modes: expected one positional replacement")
+    st = stores[0]
+    lp = enclosing(ff, st, (ast.For,))
+    lp = lp[0] if lp else None
+    ok = False
+    if lp is not None and isinstance(lp.iter, ast.Call) and txt(lp.iter.func) == "enumerate" and isinstance(lp.target, ast.Tuple):
+        idx, el = (e.id for e in lp.target.elts)
+        rec = [c for c in pf.calls_in(lp) if txt(c.func) == "_build_decay_modes"]
+        conds = [(txt(e), pol) for kind, e, pol in guards.path_conditions(lp, st) if kind == "if"]
+        ok = txt(st.targets[0].slice) == idx and txt(st.targets[0].value) == txt(lp.iter.args[0]) and txt(st.value) in (f"next(iter({el}.keys()))", f"next(iter({el}))") \
+            and conds == [(f"isinstance({el}, dict)", True)] and len(rec) == 1 and txt(rec[0].args[0]) == "decay_modes" \
+            and txt(rec[0].args[1]).endswith(f"[{idx}]") and not any(isinstance(x, (ast.Break, ast.Continue)) for x in ast.walk(lp))
+    (ctx.holds if ok else ctx.violation)("C11.7", k, where(ff, st),
+                                          "each nested dictionary is replaced by its key at its own position and the reader recurses into that element" if ok
+                                          else "the reader does not replace / recurse position by position")
+    # both branches build the mode through DecayMode.from_dict
+    sets = [s for s in pf.iter_stmts(ff.node.body) if isinstance(s, ast.Assign) and txt(s.targets[0]) == "decay_modes[mother]"]
+    vals = [a for s in sets for a in phi_alts(flow.expand(s.value))]
+    okb = len(vals) == 2 and all(isinstance(v, ast.Call) and txt(v.func) == "DecayMode.from_dict" for v in vals)
+    (ctx.holds if okb else ctx.violation)("C11.7", ckey(ff, None, "reader-modes"), where(ff, ff.node),
+                                          "both branches store DecayMode.from_dict(<mode dictionary>) under the mother" if okb else "modes are not built through DecayMode.from_dict in both branches")
+    ch, cflow = fn(ss, DECAY, "DecayChain.from_dict")
+    r = returns(ch)
+    okc = len(r) == 1 and cflow.text(r[0].value) in ("cls(next(iter(decay_chain_dict.keys())), {})", "cls(next(iter(decay_chain_dict.keys())), decay_modes)") and \
+        any(txt(c.func) == "_build_decay_modes" and txt(c.args[1]) == "decay_chain_dict" for c in pf.calls_in(ch.node))
+    (ctx.holds if okc else ctx.violation)("C11.7", ckey(ch, None, "entry"), where(ch, ch.node),
+                                          "DecayChain.from_dict = cls(first key, modes collected from the whole dictionary)" if okc else "DecayChain.from_dict frame changed")
